@@ -222,6 +222,28 @@ func (l *Loop) CountsDownToZero() (ssa.Value, bool) {
 	return l.Init, true
 }
 
+// CountsDownToOne reports whether l iterates init, init-1, …, 1 (inclusive) —
+// the `for n := len(x); n > 0; n--` spelling of a reverse walk, whose body
+// indexes with n-1 — and returns the init value.
+func (l *Loop) CountsDownToOne() (ssa.Value, bool) {
+	if l.Ind == nil || l.Step != -1 || l.Test == nil {
+		return nil, false
+	}
+	a := l.TestAtom
+	if a.X != l.Ind {
+		return nil, false
+	}
+	z, ok := IntConst(a.Y)
+	if !ok {
+		return nil, false
+	}
+	cont := (a.Op == token.GTR && z == 0) || (a.Op == token.GEQ && z == 1) || (a.Op == token.NEQ && z == 0)
+	if !cont || l.ExitSucc == a.TrueSucc() {
+		return nil, false
+	}
+	return l.Init, true
+}
+
 // IsLenMinusOne: v == len(field) - 1.
 func IsLenMinusOne(v ssa.Value, field *types.Var) bool {
 	bo, ok := v.(*ssa.BinOp)
